@@ -22,6 +22,7 @@ FINGERPRINTS = [  # hand-modelled structure: a change enlarges the correspondenc
     (TYPES, ["Violation", "Severity"]),
     (UTILS, ["execute_linting_on_paths", "handle_linting_error"]),
     ("src/linters/dry/linter.py", ["check", "finalize"]),
+    ("src/core/base.py", ["BaseLintRule"]),
     ("src/linters/stringly_typed/linter.py", ["finalize", "_ensure_storage_initialized"]),
 ]
 
@@ -528,6 +529,88 @@ def json_fields():
     return defn("json_fields", "list (string * (string * jtrans))", coq_list(rows))
 
 
+# ------------------------------------------------------------------ the rule-instance level (Model/OrchParRules.v)
+def _stmts(fn: ast.FunctionDef) -> list[str]:
+    return [ast.unparse(st) for st in _body(fn)]
+
+
+def lint_file_template():
+    """Template of Orchestrator.lint_file - two skip tests that `return []`, then EVERY registered rule on the file:
+         if _is_hardcoded_excluded(<path expr>): return []          (the path expression is the matter of parent_evidence)
+         if self.ignore_parser.is_ignored(file_path): return []
+         language = detect_language(file_path); rules = self._get_rules_for_file(file_path, language)
+         metadata = {**self.config, '_project_root': self.project_root}
+         context = FileLintContext(file_path, language, metadata=metadata)
+         return self._execute_rules(rules, context)
+       and _get_rules_for_file = discover once, `return self.registry.list_all()` (no per-file selection of rules)."""
+    src = _stmts(_orch("lint_file"))
+    want_tail = ["if self.ignore_parser.is_ignored(file_path):\n    return []", "language = detect_language(file_path)",
+                 "rules = self._get_rules_for_file(file_path, language)", "metadata = {**self.config, '_project_root': self.project_root}",
+                 "context = FileLintContext(file_path, language, metadata=metadata)", "return self._execute_rules(rules, context)"]
+    if len(src) != 7 or src[1:] != want_tail or not re.fullmatch(r"if _is_hardcoded_excluded\((file_path|self\._path_inside_project\(file_path\))\):\n    return \[\]", src[0]):
+        raise Unsupported(f"lint_file is not `excluded -> [], ignored -> [], all rules on the file`: {src}")
+    g = _stmts(_orch("_get_rules_for_file"))
+    if g != ["self._ensure_rules_discovered()", "return self.registry.list_all()"]:
+        raise Unsupported(f"_get_rules_for_file selects rules: {g}")
+    return (defn("lint_file_skip_tests", "list string", coq_str_list(["hardcoded_excluded", "ignored"]))
+            + defn("lint_file_runs_all_rules", "bool", "true"))
+
+
+def execute_rules_template():
+    """_execute_rules: every rule of the list in order through _safe_check_rule, results appended in that order"""
+    src = _stmts(_orch("_execute_rules"))
+    want = ["violations = []", "for rule in rules:\n    rule_violations = self._safe_check_rule(rule, context)\n    violations.extend(rule_violations)",
+            "return violations"]
+    if src != want:
+        raise Unsupported(f"_execute_rules is not the plain loop: {src}")
+    return defn("execute_rules_in_order", "bool", "true")
+
+
+def base_finalize():
+    """BaseLintRule.finalize (what a rule that does not override finalize reports): `return []`"""
+    cls = find_class(parse("src/core/base.py"), "BaseLintRule")
+    fns = [n for n in cls.body if isinstance(n, ast.FunctionDef) and n.name == "finalize"]
+    if len(fns) != 1 or _stmts(fns[0]) != ["return []"] or fns[0].decorator_list:
+        raise Unsupported("BaseLintRule.finalize is not `return []`")
+    return defn("base_finalize_result", "list (list (string * pyval))", "[]")
+
+
+def finalize_rules_template():
+    """_finalize_rules: discover, then finalize() of EVERY registered rule in registry order, results appended"""
+    src = _stmts(_orch("_finalize_rules"))
+    want = ["self._ensure_rules_discovered()", "violations: list[Violation] = []",
+            "for rule in self.registry.list_all():\n    violations.extend(rule.finalize())", "return violations"]
+    if src != want:
+        raise Unsupported(f"_finalize_rules is not the plain loop over the registry: {src}")
+    return defn("finalize_rules_over_registry", "bool", "true")
+
+
+def parent_rule_selection():
+    """_collect_cross_file_evidence: which rule instances of the parent's registry are fed, and how: the loop body after the
+    skip test builds the same context as lint_file and calls self._execute_rules(rules, context), discarding the result."""
+    cls = find_class(parse(CORE), "Orchestrator")
+    if not any(isinstance(n, ast.FunctionDef) and n.name == "_collect_cross_file_evidence" for n in cls.body):
+        return defn("parent_rule_selection", "psel", "SelOverridesFinalize")      # no parent loop at all (see parent_evidence)
+    g = _orch("_collect_cross_file_evidence")
+    src = _stmts(g)
+    if len(src) != 3 or src[0] != "self._ensure_rules_discovered()":
+        raise Unsupported(f"_collect_cross_file_evidence: {src[:2]}")
+    sel = {"rules = [r for r in self.registry.list_all() if type(r).finalize is not BaseLintRule.finalize]": "SelOverridesFinalize",
+           "rules = self.registry.list_all()": "SelAll"}.get(src[1])
+    if sel is None:
+        raise Unsupported(f"_collect_cross_file_evidence: rule selection `{src[1]}`")
+    loop = [n for n in g.body if isinstance(n, ast.For)]
+    if len(loop) != 1 or loop[0].orelse:
+        raise Unsupported("_collect_cross_file_evidence: one loop expected")
+    body = [ast.unparse(st) for st in loop[0].body]
+    if (len(body) != 4 or not body[0].startswith("if ") or not body[0].endswith(":\n    continue")
+            or body[1:] != ["metadata = {**self.config, '_project_root': self.project_root}",
+                            "context = FileLintContext(file_path, detect_language(file_path), metadata=metadata)",
+                            "self._execute_rules(rules, context)"]):
+        raise Unsupported(f"_collect_cross_file_evidence: loop body {body}")
+    return defn("parent_rule_selection", "psel", sel)
+
+
 ITEMS = [
     ("violation_fields", violation_fields),
     ("severity_members", severity_members),
@@ -549,4 +632,9 @@ ITEMS = [
     ("cli_dispatch", cli_dispatch),
     ("cli_commands", cli_commands),
     ("json_fields", json_fields),
+    ("lint_file_template", lint_file_template),
+    ("execute_rules_template", execute_rules_template),
+    ("base_finalize", base_finalize),
+    ("finalize_rules_template", finalize_rules_template),
+    ("parent_rule_selection", parent_rule_selection),
 ]
